@@ -283,6 +283,11 @@ SIGN_WITNESS_B = 4.639172476564036
 
 def corpus():
     L = []
+    # resolution limit (round-10 seed C07w): [1000, 1000 + 2^-30] holds 2^13 doubles, so from level 14 on the new
+    # abscissae a + (2k-1) hn repeat bitwise; every one of them must still be summed
+    for c_ in ([3.0], [0.0, 1.0]):
+        for k_ in (16, 20):
+            L.append("romberg poly:reslimit:diag %s %s %s %s %d" % (ig_poly(c_), f2h(1000.0), f2h(1000.0 + 2.0 ** -30), f2h(0.0), k_))
     one = ig_poly([1.0])
     # F16: trapz(1, 0, 1, 1) must be 1
     L.append("trapz poly:F16 %s %s %s 1" % (one, f2h(0.0), f2h(1.0)))
@@ -618,6 +623,36 @@ def strata(rng, tier, bump):
             L.append("trapezoid samples:ys:%d:%d:%d %s x %s nodx" % (g, j, e, vec(ys), vec(x)))
             L.append("trapezoid samples:ys:%d:%d:%d %s nox dx %s" % (g + 1, j, e, vec(ys), f2h(0.375)))
         bump("strata:samples-extreme-scale")
+    # (10) resolution limit (round-10 seed C07w): intervals [c, c + 2^m ulp(c)] that hold only 2^m + 1 doubles, so the
+    # abscissae of romberg repeat bitwise from level m+1 on (those of trapz for n > 2^m, of quad5 for m <= 4); repeated
+    # abscissae are still a valid quadrature: every level stays within rounding of the exact integral
+    centres = [1.0, 1000.0, 2.0 ** 20, 1e10, -1000.0]
+    polys = [[3.0], [0.0, 1.0], [0.0, 0.0, 1.0], [1.0, -2.0], [2.0, 1.0, -1.0], [1.0, 0.0, 0.0, 1.0]]
+    ms = list(range(4, 19))
+    for c0 in centres:
+        mlist = ms if thorough else [rng.choice(ms[:5]), rng.choice(ms[5:10]), rng.choice(ms[10:])]
+        for m in mlist:
+            w = 2.0 ** m * math.ulp(abs(c0))
+            lo, hi = c0, c0 + w
+            for orient in ((0, 1) if thorough else (rng.randint(0, 1),)):
+                a, b = (lo, hi) if orient == 0 else (hi, lo)
+                plist = polys if thorough else [polys[0], polys[1], rng.choice(polys[2:])]
+                for c in plist:
+                    k = 20 if (thorough or rng.chance(0.6)) else rng.randint(max(1, m - 2), 20)
+                    L += romberg_family(rng, "poly:reslimit", ig_poly(c), a, b, k, eps_list=[rng.choice([1e-300, 5e-324, 1e-18])])
+                    bump("strata:reslimit-romberg")
+                if m <= 12:
+                    for n in sorted({max(1, 2 ** m // 2), 2 ** m, min(4096, 2 ** (m + 1)), min(4096, 2 ** (m + 3)), 4096}):
+                        L.append("trapz poly:reslimit %s %s %s %d" % (ig_poly(rng.choice(polys[:2] + [polys[3]])), f2h(a), f2h(b), n))
+                    bump("strata:reslimit-trapz")
+    for c0 in centres:
+        for m in (0, 1, 2, 3, 4, 5):
+            w = 2.0 ** m * math.ulp(abs(c0))
+            a, b = (c0, c0 + w) if rng.chance(0.5) else (c0 + w, c0)
+            for c in (polys[0], polys[1], rng.choice(polys[2:])):
+                L.append("quad5 poly:reslimit %s %s %s" % (ig_poly(c), f2h(a), f2h(b)))
+                L.append("trapz poly:reslimit %s %s %s %d" % (ig_poly(c[:2]), f2h(a), f2h(b), rng.choice([1, 2, 7, 64, 4096])))
+            bump("strata:reslimit-quad5")
     return L
 
 
